@@ -670,8 +670,20 @@ func c03Judge(c *c03Case, shim bool, v *Verdict) (class, detail string) {
 			if lastMemo != nil {
 				we := *e
 				we.Reuse = true
-				c03ParseOnce(c.G, e.Input, c.Prefix, true, &we, shim, c.Long, &lastMemo)
+				wo := c03ParseOnce(c.G, e.Input, c.Prefix, true, &we, shim, c.Long, &lastMemo)
 				v.Probes["warm_parses_on_a_reused_grammar"]++
+				// transparency holds for every input the long-lived grammar object is given, not
+				// only for the first: the same input on a fresh un-memoised build
+				pe := c03Event{Kind: "plain", MapSeed: e.MapSeed, Identity: e.Identity}
+				po := c03ParseOnce(c.G, e.Input, c.Prefix, false, &pe, shim, c.Long, nil)
+				if wo.discard == "" && po.discard == "" {
+					if wo.once != "" {
+						return "once", "on a later input parsed with the same grammar object: " + wo.once
+					}
+					if wo.visible() != po.visible() {
+						return "transparency", fmt.Sprintf("memoised and plain builds differ on a LATER input %q parsed with the grammar object that had parsed %q before:\n  plain: %s\n  memo:  %s", e.Input, c.Input, clip(po.visible()), clip(wo.visible()))
+					}
+				}
 			}
 		case "memo":
 			if e.Reuse && lastMemo != nil {
